@@ -345,6 +345,11 @@ struct Case {
     /// about snippet regions without excluding every multi-violation case)
     #[serde(default = "yes")]
     strict: bool,
+    /// > 0: not a document case but the long-stream comparison - a stream of that many MiB of
+    /// small valid documents read through `read` and through the validating iterator of `krate`
+    /// (they must yield the same items: `read` has no cap on the total input size)
+    #[serde(default)]
+    long_mib: u32,
 }
 fn yes() -> bool {
     true
@@ -1801,8 +1806,68 @@ fn case_s(eps: Vec<Ep>, keys: &'static [&'static str], rates: Vec<u32>) -> impl 
             let n = if ep.stream() { 4 } else { 1 };
             // in a stream some documents pass and some fail
             let doc = prop_oneof![3 => doc_s(pbad, keys), 1 => doc_s(0, keys)];
-            prop::collection::vec(doc, 1..=n).prop_map(move |docs| Case { krate, ep, opt, layout: layout.clone(), docs, strict })
+            prop::collection::vec(doc, 1..=n).prop_map(move |docs| Case { krate, ep, opt, layout: layout.clone(), docs, strict, long_mib: 0 })
         })
+}
+
+#[derive(Deserialize, garde::Validate, validator::Validate, Debug, PartialEq)]
+struct LongDoc {
+    #[garde(range(min = 0))]
+    #[validate(range(min = 0))]
+    a: i64,
+}
+/// `n` copies of one small document, produced on the fly
+struct Repeat {
+    unit: &'static [u8],
+    left: usize,
+    pos: usize,
+}
+impl std::io::Read for Repeat {
+    fn read(&mut self, buf: &mut [u8]) -> std::io::Result<usize> {
+        let mut n = 0;
+        while n < buf.len() && self.left > 0 {
+            let k = (self.unit.len() - self.pos).min(buf.len() - n);
+            buf[n..n + k].copy_from_slice(&self.unit[self.pos..self.pos + k]);
+            n += k;
+            self.pos += k;
+            if self.pos == self.unit.len() {
+                self.pos = 0;
+                self.left -= 1;
+            }
+        }
+        Ok(n)
+    }
+}
+fn check_long_stream(krate: Krate, mib: u32) -> Outcome {
+    const UNIT: &[u8] = b"---\na: 123456789\npad: [aaaaaaaaaaaaaaaaaaaaaaaaaaaaaaaaaaaaaaaaaaaaaaaaaaaaaaaaaaaaaaaaaaaaaaaaaaaaaaaaaaaaaaaaaaaaaaaaaaaaaaaaaaaaaaaaaaaaaaaaaaaaaaaaaaaaaaaaaaaaaaaaaaaaaaaaaaaaaaaaaaaaaaaaaaaaaaaaaaaaaaaaaaaaaaaaaaaaaaaaaaaaaaaaaaaaaaaaaaaaaaaaaaaaaaaaaaaaaa]\n";
+    let n = (mib as usize) * (1 << 20) / UNIT.len() + 1;
+    let count = |r: &mut dyn Iterator<Item = Result<LongDoc, serde_saphyr::Error>>| -> (usize, Option<String>) {
+        let mut ok = 0usize;
+        for item in r {
+            match item {
+                Ok(_) => ok += 1,
+                Err(e) => return (ok, Some(e.without_snippet().to_string())),
+            }
+        }
+        (ok, None)
+    };
+    let mut plain_rd = Repeat { unit: UNIT, left: n, pos: 0 };
+    let plain = count(&mut serde_saphyr::read::<_, LongDoc>(&mut plain_rd));
+    let mut rd = Repeat { unit: UNIT, left: n, pos: 0 };
+    let valid = match krate {
+        Krate::Garde => count(&mut serde_saphyr::read_valid::<_, LongDoc>(&mut rd)),
+        Krate::Validator => count(&mut serde_saphyr::read_validate::<_, LongDoc>(&mut rd)),
+    };
+    if plain != (n, None) {
+        return Outcome::Discard("plain iterator does not read the long stream");
+    }
+    if valid != plain {
+        return Outcome::Fail(format!(
+            "a stream of {n} valid documents ({mib} MiB): read yields {} items, the validating iterator ({krate:?}) {} items and then {:?}",
+            plain.0, valid.0, valid.1
+        ));
+    }
+    Outcome::Pass
 }
 
 struct C18;
@@ -1852,6 +1917,9 @@ impl Property for C18 {
         ]
     }
     fn check(c: &Case) -> Outcome {
+        if c.long_mib > 0 {
+            return check_long_stream(c.krate, c.long_mib);
+        }
         match check_case(c) {
             Verdict::Pass => Outcome::Pass,
             Verdict::Fail(m) => Outcome::Fail(m),
@@ -1870,7 +1938,7 @@ impl Property for C18 {
         for i in 0..n_leaves(&d) {
             violate(&mut d, i, &How::Direct);
         }
-        let c = Case { krate: Krate::Garde, ep: Ep::Str, opt: OptV::Default, layout: base_layout(), docs: vec![d], strict: true };
+        let c = Case { krate: Krate::Garde, ep: Ep::Str, opt: OptV::Default, layout: base_layout(), docs: vec![d], strict: true, long_mib: 0 };
         let r = render(&c);
         for k in [Krate::Garde, Krate::Validator] {
             let a: BTreeSet<String> = violations(&r.docs[0].model, k).iter().map(|s| strip_raw(s)).collect();
@@ -1899,11 +1967,20 @@ impl Property for C18 {
         let keys: &[&str] = if collide { &COLLIDE_KEYS } else { &KEYS };
         let n = if ep.stream() { 1 + b.below(4) } else { 1 };
         let docs = (0..n).map(|_| doc_b(&mut b, keys)).collect();
-        let c = Case { krate, ep, opt, layout, docs, strict };
+        let c = Case { krate, ep, opt, layout, docs, strict, long_mib: 0 };
         let nt = count_classes(&RefCell::new(BTreeMap::new()), &c);
         Some(("fuzz-documents", c, nt))
     }
     fn generate(ctx: &mut Ctx<Self>) {
+        // --- a stream longer than the default input cap of the single-document entry points:
+        // `read` has no such cap, so the validating iterators must not have one either
+        for (i, krate) in [Krate::Garde, Krate::Validator].into_iter().enumerate() {
+            if ctx.mine(3 + 5 * i as u64) {
+                let c = Case { krate, ep: Ep::Str, opt: OptV::Default, layout: base_layout(), docs: vec![], strict: true, long_mib: 260 };
+                ctx.case("long-stream", &c, true);
+            }
+        }
+        ctx.subspace("streams of 260 MiB of small valid documents x 2 validation crates", 2, true);
         let classes: RefCell<BTreeMap<String, u64>> = RefCell::new(BTreeMap::new());
         // --- enumerated: one violated leaf of a fixed document x supply x entry point x crate x style
         let base = base_doc();
@@ -1947,7 +2024,7 @@ impl Property for C18 {
                             let mut layout = base_layout();
                             layout.crlf = leaf % 2 == 1;
                             layout.cmt_every = (style * 2) % 5;
-                            let c = Case { krate, ep, opt: OptV::Default, layout, docs, strict: true };
+                            let c = Case { krate, ep, opt: OptV::Default, layout, docs, strict: true, long_mib: 0 };
                             let nt = count_classes(&classes, &c);
                             ctx.case("one-violated-leaf", &c, nt);
                         }
@@ -1971,7 +2048,7 @@ impl Property for C18 {
                 let ep = EPS[(a + 2 * b) % 7];
                 let krate = if (a + b) % 2 == 0 { Krate::Garde } else { Krate::Validator };
                 let docs = if ep.stream() { vec![d.clone(), base.clone(), d] } else { vec![d] };
-                let c = Case { krate, ep, opt: OptV::Default, layout: base_layout(), docs, strict: true };
+                let c = Case { krate, ep, opt: OptV::Default, layout: base_layout(), docs, strict: true, long_mib: 0 };
                 let nt = count_classes(&classes, &c);
                 ctx.case("two-violated-leaves", &c, nt);
                 if !signatures_of(&c).is_empty() {
@@ -2000,6 +2077,9 @@ impl Property for C18 {
 }
 
 fn signatures_of(c0: &Case) -> Vec<&'static str> {
+    if c0.long_mib > 0 {
+        return vec![];
+    }
     let c = norm(c0);
     let mut out = vec![];
     // open finding "snippet region off by one": a cropped region claims to cover the (phantom)
@@ -2048,6 +2128,9 @@ fn signatures_of(c0: &Case) -> Vec<&'static str> {
 }
 
 fn shrink_case(c0: &Case) -> Vec<Case> {
+    if c0.long_mib > 0 {
+        return if c0.long_mib > 257 { vec![Case { long_mib: 257, ..c0.clone() }] } else { vec![] };
+    }
     let c = norm(c0);
     let mut out: Vec<Case> = vec![];
     let mut push = |x: Case| {
@@ -2210,7 +2293,7 @@ fn named_case(name: &str) -> Option<Case> {
     d.items.clear();
     d.by_name.clear();
     d.net.back_ups.clear();
-    let mut c = Case { krate: Krate::Garde, ep: Ep::Str, opt: OptV::Default, layout: base_layout(), docs: vec![], strict: true };
+    let mut c = Case { krate: Krate::Garde, ep: Ep::Str, opt: OptV::Default, layout: base_layout(), docs: vec![], strict: true, long_mib: 0 };
     match name {
         "snippet_region_off_by_one" => {
             // port-no on line 4 (reported first) and type on line 7
